@@ -120,7 +120,7 @@ CLAIMS = {
         text=('Unbounded deductive proof (Verus) of the code side of single ownership: FileLock::new returns Ok only after try_lock_exclusive succeeded on the LOCK file of that directory (lock_held), and the handle is stored in the owner; '
               'RaftLog::open and Dump::new call it first: every later directory operation in open (directory listing, Chunk::open incl. set_len, chunk creation) has the precondition lock_held(dir), a fact that only exists after the successful lock call, '
               'so the lock is provably acquired before anything is read, truncated or created, and a failed lock returns Err before any of them.'),
-        note=TRUST + ' Assumed: flock gives mutual exclusion across threads and processes and is released on unlock/close (kernel); Drop for FileLock is not under contract.',
+        note=TRUST + ' Assumed: flock gives mutual exclusion across threads and processes and is released on unlock/close (kernel). Drop for FileLock is under contract: it only unlocks its own handle; a file removal there would need lock_held(dir), which drop cannot establish.',
         technique='Verus happens-before via postcondition-established facts required by later calls, on extracted code',
         design='5 C13',
     ),
